@@ -120,6 +120,33 @@ theorem C15_closes_iff_reset (P : Params) (b : B) (n : Int) (ok : Bool)
         (afterRequest P b ok n).1.cnt = { cur := b1.cnt.cur, succ := 0, fail := 0 }) := by
   rw [afterRequest_eq]; exact afterCore_closes P _ n ok hc
 
+/-- while open, no success is on the books -/
+def SuccInv (b : B) : Prop := b.st = .opn → b.cnt.succ = 0
+
+/-- **The success streak is per state.** For a completion whose call was admitted in a generation that exists (`g ≤ b.gen`) and —
+while the breaker is open — not in the open period's own generation (both hold in every reachable state: `Inv.gens_le`,
+`Inv.opn_none`), the step keeps "open ⇒ no successes counted", and whenever it changes the state (trip, re-open, close, or the
+clock-driven open → half-open step it performs first) no success counted before the change is left afterwards: "closes exactly
+when the reset rule holds for consecutive successes" speaks about successes *of the current half-open period*. -/
+theorem C15_state_change_clears_success_streak (P : Params) (b : B) (ok : Bool) (g : Int) (h : SuccInv b)
+    (hle : g ≤ b.gen) (hopen : b.st = .opn → g ≠ b.gen) :
+    SuccInv (afterRequest P b ok g).1 ∧
+    ((afterRequest P b ok g).1.gen ≠ b.gen → (afterRequest P b ok g).1.cnt.succ = 0) := by
+  unfold SuccInv at *
+  unfold afterRequest afterCore onSuccess onFailure cs setState setBackoff clearCounts
+  simp only
+  cases hst : b.st <;> cases ok <;> simp_all <;> (repeat' split) <;> simp_all <;> omega
+
+/-- … and admissions (which may perform the open → half-open step) never create a success either -/
+theorem C15_admission_keeps_success_streak_clear (P : Params) (b : B) (h : SuccInv b) :
+    SuccInv (beforeRequest P b).1 ∧ ((beforeRequest P b).1.gen ≠ b.gen → (beforeRequest P b).1.cnt.succ = 0) := by
+  unfold SuccInv at *
+  unfold beforeRequest cs setState
+  simp only
+  cases hst : b.st <;> simp_all <;> (repeat' split) <;> simp_all
+
+example : SuccInv B.init := by intro h; cases h
+
 /-- Any current-generation failure while half-open re-opens with a new back-off computed from the
 counts *including* this failure (so the default exponential back-off grows). -/
 theorem C15_halfopen_failure_reopens (P : Params) (b : B) (n : Int)
